@@ -1193,3 +1193,59 @@ Proof.
   - intros l. apply q_dec_false. unfold Greedy.sumsq. apply sumsq_Q_ge0. apply Qcle_refl.
   - apply q_dec_true. reflexivity.
 Qed.
+
+(* ------------------------------------------------------------------------------------------ *)
+(* binary64: the three sign laws of Section Sign hold for the PrimFloat instance, for ALL floats
+   (NaN, infinities, subnormals, signed zeros included).  Uses the standard library's FloatAxioms
+   div_spec, leb_spec, ltb_spec (eqb_spec for the reading lemma) linking primitives to SpecFloat. *)
+Local Open Scope nat_scope.
+
+Lemma binary_round_aux_sign prec emax m e l : sf_ge0 (binary_round_aux prec emax false m e l).
+Proof.
+  unfold binary_round_aux.
+  destruct (shr_fexp prec emax m e l) as [mrs' e'].
+  destruct (shr_fexp prec emax (round_nearest_even (shr_m mrs') (loc_of_shr_record mrs')) e' loc_Exact) as [mrs'' e''].
+  destruct (shr_m mrs'') as [|p|p]; cbn [sf_ge0]; [reflexivity| |exact I].
+  destruct (Zle_bool e'' (emax - prec)); reflexivity.
+Qed.
+Lemma f_ge0_zero : f_ge0 0%float.
+Proof. reflexivity. Qed.
+(* IEEE sign rule of division: (not >= 0) / (< 0) is NaN or has its sign bit clear *)
+Lemma f_ge0_quot s r : f_nonneg s = false -> f_neg r = true -> f_ge0 (s / r)%float.
+Proof.
+  unfold f_ge0, f_nonneg, f_neg. rewrite FloatAxioms.div_spec, FloatAxioms.leb_spec, FloatAxioms.ltb_spec.
+  change (Prim2SF 0%float) with (S754_zero false).
+  unfold SF64div, SFleb, SFltb.
+  destruct (Prim2SF s) as [ss|ss| |ss ms es], (Prim2SF r) as [sr|sr| |sr mr er]; cbn [SFcompare SFdiv sf_ge0];
+    try discriminate; try (intros; exact I);
+    try (destruct ss; try discriminate; destruct sr; try discriminate; intros; reflexivity).
+  destruct ss; [|discriminate]. destruct sr; [|discriminate]. intros _ _.
+  cbn [xorb]. destruct (SFdiv_core_binary prec emax (Z.pos ms) es (Z.pos mr) er) as [[mz ez] lz].
+  apply binary_round_aux_sign.
+Qed.
+Lemma f_ge0_min a b : f_ge0 a -> f_ge0 b -> f_ge0 (f_min a b).
+Proof.
+  intros Ha Hb. unfold f_min. destruct (is_nan a); [assumption|]. destruct (is_nan b); [assumption|].
+  destruct (b <? a)%float; assumption.
+Qed.
+Lemma f_ge0_spec_lemma x : f_ge0 x -> is_nan x = true \/ (0 <=? x)%float = true.
+Proof.
+  unfold f_ge0, is_nan. rewrite FloatAxioms.leb_spec, FloatAxioms.eqb_spec. change (Prim2SF 0%float) with (S754_zero false).
+  unfold SFleb, SFeqb. destruct (Prim2SF x) as [s|s| |s m e]; cbn [sf_ge0 SFcompare]; intros H; subst; auto.
+Qed.
+Lemma greedy_nonneg_f64_lemma : forall signal response off la r inp,
+  nn_greedy_f signal response off la = Ok (r, inp) -> Forall f_ge0 inp.
+Proof.
+  intros signal response off la r inp. apply nn_greedy_nonneg_sec.
+  - exact f_ge0_zero.
+  - exact f_ge0_quot.
+  - exact f_ge0_min.
+Qed.
+Lemma ls_nonneg_f64_lemma : forall signal response offs las out,
+  ls_deconv_f signal response offs las = Ok out -> Forall f_ge0 out.
+Proof.
+  intros signal response offs las out. unfold ls_deconv_f, nn_greedy_f. apply ls_deconv_nonneg_sec.
+  - exact f_ge0_zero.
+  - exact f_ge0_quot.
+  - exact f_ge0_min.
+Qed.
